@@ -228,6 +228,9 @@ def check(run, replay):
         raise vlib.Broken("build:MI/Model.vo", log)
     vlib.standard_proof_phase(run, ["Props/C02.vo"], "Outrank.Props.C02", THEOREMS, allowed=vlib.STD_REAL_AXIOMS)
 
+    if replay is not None and (replay.get("case") or {}).get("kind") == "direct-history":
+        c01.direct_history_family(run, "C02", [replay["case"]], "score(Y, X, flag) = model value; recoding leaves it unchanged")
+        return
     if replay is not None and (replay.get("case") or {}).get("kind") == "scale":
         scale_quads(run, [], replay_case=replay["case"])
         return
@@ -317,6 +320,24 @@ def check(run, replay):
                 stt.append(e["base"][2])
         small_ct = vlib.run_impl("impl_c01_gen.py", {"scale": [], "small": sc})["small"]
         c01.np_terms_crosscheck(run, sc, stt, small_ct)
+        # recodings applied IN PLACE to the same buffers between direct calls: (Y, X), (fY, gX), (Y, X) again, both flags
+        hs = []
+        for fl in (False, True):
+            n = run.rng.randint(12, 120)
+            Y, X = c01.gen_pair(run.rng, run.rng.choice(["uniform", "noisy", "func", "zipf"]), n)
+            f, g = relabel(run.rng, Y, run.rng.choice(KINDS[1:])), relabel(run.rng, X, run.rng.choice(KINDS[1:]))
+            fY, gX = [f[a] for a in Y], [g[a] for a in X]
+            Z = [0] * n                                   # a refill with different contents between the recoded calls
+            P = list(range(n))
+            run.rng.shuffle(P)
+            steps = [{"Y": Y, "X": X}, {"Y": fY, "X": gX}, {"Y": Z, "X": gX}, {"Y": Y, "X": X}, {"Y": fY, "X": X},
+                     {"Y": P, "X": gX}, {"Y": Y, "X": None, "self": True}, {"Y": fY, "X": None, "self": True}]
+            hs.append({"kind": "direct-history", "flag": fl, "reuse_y": True, "reuse_x": True, "steps": steps})
+        for h in hs:
+            for st in h["steps"]:
+                if st.get("self"):
+                    st["X"] = list(st["Y"])
+        c01.direct_history_family(run, "C02", hs, "score(Y, X, flag) = model value; recoding leaves it unchanged")
         scale_quads(run, SCALE_QUADS)
     run.cov["input_distribution"] = {k: (int(v) if isinstance(v, bool) else v) for k, v in hist.items()}
     run.cov["exhaustive"] = False
